@@ -311,6 +311,63 @@ def prog_to_coq(p):
   raise ValueError(tag)
 
 
+class Namer:
+  """Names shared sub-histories (the representatives) so that cases files stay small:
+  `Definition r17 : prog := PWith r3 (Atom 0).` and cases refer to r17."""
+
+  def __init__(self):
+    self.names = {}      # id(history tuple) -> name
+    self.defs = {}       # name -> (term text, set of names it uses)
+    self.keep = []       # keeps the tuples alive so that ids stay unique
+
+  def term(self, p):
+    """(Coq term, set of definition names used)."""
+    if id(p) in self.names:
+      n = self.names[id(p)]
+      return n, {n}
+    tag = p[0]
+    if tag == "init":
+      return prog_to_coq(p), set()
+    if tag == "store":
+      t, d = self.term(p[1])
+      return "(PStore %s %d %d %s)" % (t, p[2], p[3], opt_nat(p[4])), d
+    if tag == "storeload":
+      t, d = self.term(p[1])
+      u, e = self.term(p[3])
+      return "(PStoreLoad %s %d %s %d)" % (t, p[2], u, p[4]), d | e
+    if tag == "with":
+      t, d = self.term(p[1])
+      return "(PWith %s %s)" % (t, cond_to_coq(p[2])), d
+    if tag == "merge":
+      t, d = self.term(p[1])
+      u, e = self.term(p[2])
+      return "(PMerge %s %s)" % (t, u), d | e
+    t, d = self.term(p[1])
+    return "(PMergeNone %s)" % t, d
+
+  def define(self, p):
+    if id(p) in self.names:
+      return
+    t, d = self.term(p)
+    n = "r%d" % len(self.defs)
+    self.defs[n] = (t, d)
+    self.names[id(p)] = n
+    self.keep.append(p)
+
+  def preamble(self, used):
+    """Definitions (transitively) needed for the names in `used`, in definition order."""
+    need = set()
+    todo = list(used)
+    while todo:
+      n = todo.pop()
+      if n in need:
+        continue
+      need.add(n)
+      todo.extend(self.defs[n][1])
+    return "".join("Definition %s : prog := %s.\n" % (n, self.defs[n][0])
+                   for n in sorted(need, key=lambda x: int(x[1:])))
+
+
 def prog_json(p):
   """JSON-able form of a history (conditions as canonical tuples)."""
   tag = p[0]
@@ -527,30 +584,76 @@ HEADER = ("From Coq Require Import List.\nImport ListNotations.\nFrom PV Require
           "Definition rs (p : prog) := option_map render_state (run p).\n")
 
 
-def run_model(kind, items, chunk=1500):
-  """items: Coq terms (cond-valued expressions for kind='cond', progs for kind='state').
-  One `Eval vm_compute` per case (a single big list literal is an order of magnitude slower to elaborate).
-  Returns the list of canonicalised model answers (None for a KeyError history)."""
+def run_files_parallel(named_bodies, timeout=900, nproc=None):
+  """Like common.run_cases_parallel, but coqc's output goes to a file: the answers of one file exceed the
+  pipe buffer, and common's runner only reads the pipe after the process has exited."""
+  import subprocess
+  d = os.path.join(common.BUILD, "cases")
+  os.makedirs(d, exist_ok=True)
+  nproc = nproc or max(1, min(common.NCPU, 8))
+  pending = list(named_bodies)
+  running = {}
+  results = {}
+  while pending or running:
+    while pending and len(running) < nproc:
+      name, body = pending.pop(0)
+      path = os.path.join(d, name + ".v")
+      with open(path, "w") as f:
+        f.write(body)
+      outf = open(os.path.join(d, name + ".out"), "w")
+      running[name] = (subprocess.Popen(["timeout", str(timeout), "coqc", "-Q", common.COQ, "PV", path],
+                                        stdout=outf, stderr=subprocess.STDOUT, cwd=d), outf)
+    done = [n for n, (p, _) in running.items() if p.poll() is not None]
+    if not done:
+      time.sleep(0.05)
+      continue
+    for n in done:
+      p, outf = running.pop(n)
+      outf.close()
+      results[n] = (p.returncode == 0, open(os.path.join(d, n + ".out")).read())
+  return results
+
+
+def run_models(jobs, namer=None, chunk=1000, batch=25):
+  """jobs: list of (kind, items); items are Coq terms (cond-valued expressions for kind='cond', progs for
+  kind='state').  One `Eval vm_compute` per `batch` cases (one big list literal is an order of magnitude
+  slower to elaborate, one Eval per case pays the per-command overhead); all files share one process pool.
+  Returns, per job, the canonicalised model answers in order (None for a KeyError history)."""
   bodies = []
-  sizes = []
-  for i in range(0, len(items), chunk):
-    part = items[i:i + chunk]
-    fmt = "Eval vm_compute in (%s).\n" if kind == "cond" else "Eval vm_compute in (rs %s).\n"
-    bodies.append(("c18_%s_%04d" % (kind, i // chunk), HEADER + "".join(fmt % t for t in part)))
-    sizes.append(len(part))
-  results = common.run_cases_parallel(bodies, timeout=900)
-  out = []
-  for (name, _), n in zip(bodies, sizes):
+  meta = []
+  for jn, (kind, items) in enumerate(jobs):
+    for i in range(0, len(items), chunk):
+      part = items[i:i + chunk]
+      lines = []
+      if kind == "state":
+        used = set()
+        for _, d in part:
+          used |= d
+        lines.append(namer.preamble(used))
+        part = [t for t, _ in part]
+      for j in range(0, len(part), batch):
+        lst = "; ".join(part[j:j + batch])
+        lines.append(("Eval vm_compute in [%s].\n" if kind == "cond" else "Eval vm_compute in (map rs [%s]).\n") % lst)
+      name = "c18_%s_%04d" % (kind, i // chunk)
+      bodies.append((name, HEADER + "".join(lines)))
+      meta.append((jn, kind, name, len(part)))
+  results = run_files_parallel(bodies, timeout=900)
+  outs = [[] for _ in jobs]
+  for jn, kind, name, n in meta:
     ok, txt = results[name]
     if not ok:
       raise common.BuildError("cases file %s failed:\n%s" % (name, txt[-2000:]))
-    terms = common.parse_coq_eval(txt)
-    if len(terms) != n:
-      raise common.BuildError("cases file %s: expected %d answers, got %d" % (name, n, len(terms)))
-    for t in terms:
-      t = parse_term(t)
-      out.append(model_cond(t) if kind == "cond" else model_opt(t, model_state))
-  return out
+    got = []
+    for t in common.parse_coq_eval(txt):
+      lst = parse_term(t)
+      if not isinstance(lst, list):
+        raise common.BuildError("cases file %s: expected a list answer" % name)
+      got.extend(lst)
+    if len(got) != n:
+      raise common.BuildError("cases file %s: expected %d answers, got %d" % (name, n, len(got)))
+    for t in got:
+      outs[jn].append(model_cond(t) if kind == "cond" else model_opt(t, model_state))
+  return outs
 
 
 # ---------------------------------------------------------------------------------------------------------
@@ -659,16 +762,28 @@ def load_corpus():
   return out
 
 
+def report_history_violation(res, p, n_viol):
+  if n_viol > 3:
+    return
+  small = shrink_prog(p, lambda q: top_oracle(q) is not None)
+  f2 = top_oracle(small)
+  res.violation(fingerprint(small, f2),
+                "%s: under valuation %s local/field %s has %s, expected %s" % (prog_str(small), f2[0], f2[1], f2[2], f2[3]),
+                {"kind": "history", "history": prog_json(small)})
+
+
 def run(res):
+  import threading
   thorough = res.tier == "thorough"
   max_ops = 4 if thorough else 3
   res.rule = ("conditions: every call Not(t), And(), And(t), And(t1,t2), Or(...) (and the 3-argument calls at depth 1; "
               "at depth 2 too in thorough) with arguments drawn from all distinct condition objects of depth <=1 over "
               "3 opaque atoms + TRUE/FALSE; states: every history of <=%d public operations (BlockState({}), "
-              "store_local of from_value / of a load_local result, with_condition(c) for c in the depth<=1 "
-              "conditions, merge_into(other), merge_into(None)) over 2 names and 2 values, extended from one "
-              "representative per distinct reachable state; a case is non-trivial when the result is not a "
-              "constant / has >=1 local, distinct by canonical rendering of inputs" % max_ops)
+              "store_local of from_value / of a load_local result (same or other state), with_condition(c) for c in "
+              "the depth<=1 conditions, merge_into(other), merge_into(None)) over 2 names and 2 values, extended from "
+              "one representative per distinct reachable state, plus random merge_into pairs of <=2-operation states; "
+              "a case is non-trivial when the result is not a constant / has >=1 local, distinct by canonical "
+              "rendering" % max_ops)
   res.assumptions = [
       "atomic conditions are opaque hashable Condition subclasses (harness Atom dataclass); TRUE/FALSE only as the "
       "module singletons (the code tests them with `is`)",
@@ -681,40 +796,54 @@ def run(res):
   res.trusted_base += ["harness/props/c18.py renderer/parser; coqc vm_compute on generated cases.v files"]
   m = impl()
   t0 = time.time()
+  r = common.rng(res.seed, "c18")
 
-  # ---- leg 1: condition constructors ------------------------------------------------------------------
-  d0, d1, calls = cond_universe(thorough)
+  # ---- generate: condition constructor calls, operation histories ------------------------------------
+  _, d1, calls = cond_universe(thorough)
   res.extra["distinct_conditions_depth<=1"] = len(d1)
-  exprs = [call_to_coq(k, a) for k, a, _ in calls]
+  levels, progs = enumerate_states(max_ops, d1)
+  reps = [p for lvl in levels[:3] for p, _ in lvl]          # every distinct state of <=2 operations
+  n_rand = 20000 if thorough else 800
+  rand_pairs = [("merge", r.choice(reps), r.choice(reps)) for _ in range(n_rand)]
+  corpus = load_corpus()
+  progs = [p for _, p in corpus] + progs + rand_pairs
+  res.extra["distinct_states_by_ops"] = [len(l) for l in levels]
+  res.extra["histories_run"] = len(progs)
+
+  # ---- model side (coqc in the background) ------------------------------------------------------------
+  namer = Namer()
+  for lvl in levels[:-1]:
+    for p, _ in lvl:
+      namer.define(p)
+  box = {}
+  def model_thread():
+    try:
+      box["cond"], box["state"] = run_models([("cond", [call_to_coq(k, a) for k, a, _ in calls]),
+                                              ("state", [namer.term(p) for p in progs])], namer)
+    except BaseException as e:  # pylint: disable=broad-except
+      box["error"] = e
+  th = threading.Thread(target=model_thread)
+  th.start()
+
+  # ---- leg 1: condition constructors on the real objects + truth-table oracle --------------------------
   real = []
   n_bad_sem = 0
   hist = {"not": 0, "and": 0, "or": 0}
   shapes = {}
-  for k, a, depth in calls:
-    r = call_cond(k, a)
-    real.append(canon(r))
+  for k, a, _ in calls:
+    rr = call_cond(k, a)
+    real.append(canon(rr))
     hist[k] += 1
-    shapes[canon(r)[0]] = shapes.get(canon(r)[0], 0) + 1
-    res.count((k, tuple(canon(x) for x in a)) if canon(r)[0] not in "TF" else None)
-    bad = cond_oracle(k, a, r)
+    shapes[canon(rr)[0]] = shapes.get(canon(rr)[0], 0) + 1
+    res.count((k, tuple(canon(x) for x in a)) if canon(rr)[0] not in "TF" else None)
+    bad = cond_oracle(k, a, rr)
     if bad is not None:
       n_bad_sem += 1
       if n_bad_sem <= 3:
-        res.violation("condition-constructor-not-equivalent:%s(%s)" % (k, ",".join(canon_str(canon(x)) for x in a))[:120],
+        res.violation(("condition-constructor-not-equivalent:%s(%s)" % (k, ",".join(canon_str(canon(x)) for x in a)))[:120],
                       "%s(%s) = %s is not equivalent to the logical connective under valuation %s" %
-                      (k, ", ".join(canon_str(canon(x)) for x in a), canon_str(canon(r)), bad),
+                      (k, ", ".join(canon_str(canon(x)) for x in a), canon_str(canon(rr)), bad),
                       {"kind": "cond", "call": k, "args": [canon(x) for x in a]})
-  model = run_model("cond", exprs)
-  mism = [i for i in range(len(calls)) if model[i] != real[i]]
-  for i in mism[:3]:
-    k, a, _ = calls[i]
-    common.log("[C18] cond mismatch: %s(%s): real=%s model=%s" % (
-        k, ", ".join(canon_str(canon(x)) for x in a), canon_str(real[i]), canon_str(model[i])))
-  res.obligation("correspondence:conditions(Not/And/Or)", not mism,
-                 "%d of %d constructor calls disagree; first: %s" % (
-                     len(mism), len(calls),
-                     [(calls[i][0], [canon_str(canon(x)) for x in calls[i][1]], canon_str(real[i]), canon_str(model[i]))
-                      for i in mism[:2]]))
   res.obligation("oracle:conditions-truth-tables", n_bad_sem == 0, "%d calls not equivalent" % n_bad_sem)
   res.extra["condition_calls"] = dict(hist, total=len(calls))
   res.extra["condition_result_shapes"] = shapes
@@ -727,9 +856,9 @@ def run(res):
   for c1 in d1:
     v = m.V.Variable((m.V.Binding(1, c1), m.V.Binding(2, m.C.TRUE)), name="n0")
     for c in d1:
-      r = v.with_condition(c)
+      rr = v.with_condition(c)
       n_vw += 1
-      if var_with_oracle(v, c, r) is not None:
+      if var_with_oracle(v, c, rr) is not None:
         n_vw_bad += 1
         if n_vw_bad <= 1:
           res.violation("variable-with_condition-not-exact:%s+%s" % (canon_str(canon(c1)), canon_str(canon(c))),
@@ -738,35 +867,79 @@ def run(res):
   res.count(None, n_vw)
   res.obligation("oracle:Variable.with_condition", n_vw_bad == 0, "%d of %d" % (n_vw_bad, n_vw))
 
-  # ---- leg 3: block states ----------------------------------------------------------------------------
-  levels, progs = enumerate_states(max_ops, d1)
-  corpus = load_corpus()
-  progs = [p for _, p in corpus] + progs
-  res.extra["distinct_states_by_ops"] = [len(l) for l in levels]
-  res.extra["histories_run"] = len(progs)
+  # ---- leg 3: histories on the real classes + oracle on every with_condition / merge_into --------------
   kinds = {}
   real_states = []
   n_viol = 0
   n_oracle = 0
   for p in progs:
-    s = run_prog(p)
-    r = None if s is None else render_state(s)
-    real_states.append(r)
+    st = run_prog(p)
+    rr = None if st is None else render_state(st)
+    real_states.append(rr)
     kinds[p[0]] = kinds.get(p[0], 0) + 1
-    res.count((p[0], r) if r is not None and r[0] else None)
+    res.count((p[0], rr) if rr is not None and rr[0] else None)
     if p[0] in ("merge", "with"):
       n_oracle += 1
-      fail = top_oracle(p)
-      if fail is not None:
+      if top_oracle(p) is not None:
         n_viol += 1
-        if n_viol <= 3:
-          small = shrink_prog(p, lambda q: top_oracle(q) is not None)
-          f2 = top_oracle(small)
-          res.violation(fingerprint(small, f2),
-                        "%s: under valuation %s local/field %s has %s, expected %s" % (prog_str(small), f2[0], f2[1], f2[2], f2[3]),
-                        {"kind": "history", "history": prog_json(small)})
+        report_history_violation(res, p, n_viol)
   res.extra["history_top_operation"] = kinds
-  model_states = run_model("state", [prog_to_coq(p) for p in progs])
+  for p in progs:
+    if p[0] == "merge" and prog_ops(p) >= 3:
+      st = run_prog(p)
+      if st is not None and len(st.get_locals()) == 2:
+        res.sample({"history": prog_str(p), "real_state": repr(st)})
+        break
+
+  # ---- leg 4: merge_into oracle on all pairs of reachable states (real objects only) -------------------
+  if thorough:
+    extra = [p for p, _ in levels[3]]
+    r.shuffle(extra)
+    reps_b = reps + extra[:1500]
+  else:
+    reps_b = reps
+  budget = 400.0 if thorough else 30.0
+  states = [run_prog(p) for p in reps_b]
+  n_pairs = 0
+  tp = time.time()
+  truncated = False
+  for i in range(len(reps_b)):
+    if time.time() - tp > budget:
+      truncated = True
+      break
+    for j in range(len(reps)):
+      todo = [(i, j)] if i < len(reps) else [(i, j), (-j - 1, i)]
+      for a, b in todo:
+        pa = reps_b[a] if a >= 0 else reps[-a - 1]
+        sa = states[a] if a >= 0 else states[-a - 1]
+        pb, sb = reps_b[b], states[b]
+        n_pairs += 1
+        if merge_oracle(sa, sb, sa.merge_into(sb)) is not None:
+          n_viol += 1
+          report_history_violation(res, ("merge", pa, pb), n_viol)
+  res.count(None, n_pairs)
+  res.extra["merge_pairs_oracle"] = {"pairs": n_pairs, "states": len(reps_b), "truncated_by_time_budget": truncated}
+  res.obligation("oracle:merge_into/with_condition-truth-tables", n_viol == 0,
+                 "%d violating operations among %d history tops + %d state pairs" % (n_viol, n_oracle, n_pairs))
+  res.extra["wall_real_side_s"] = round(time.time() - t0, 1)
+
+  # ---- correspondence ---------------------------------------------------------------------------------
+  th.join()
+  if "error" in box:
+    res.obligation("model-run", False, repr(box["error"])[:3000])
+    return "proof"
+  model = box["cond"]
+  mism = [i for i in range(len(calls)) if model[i] != real[i]]
+  for i in mism[:3]:
+    k, a, _ = calls[i]
+    common.log("[C18] cond mismatch: %s(%s): real=%s model=%s" % (
+        k, ", ".join(canon_str(canon(x)) for x in a), canon_str(real[i]), canon_str(model[i])))
+  res.obligation("correspondence:conditions(Not/And/Or)", not mism,
+                 "%d of %d constructor calls disagree; first: %s" % (
+                     len(mism), len(calls),
+                     [(calls[i][0], [canon_str(canon(x)) for x in calls[i][1]], canon_str(real[i]), canon_str(model[i]))
+                      for i in mism[:2]]))
+  model_states = box["state"]
   mism = [i for i in range(len(progs)) if model_states[i] != real_states[i]]
   for i in mism[:3]:
     common.log("[C18] state mismatch: %s\n   real =%s\n   model=%s" % (prog_str(progs[i]), real_states[i], model_states[i]))
@@ -774,59 +947,6 @@ def run(res):
                  "%d of %d histories disagree; first: %s" % (
                      len(mism), len(progs),
                      [(prog_str(progs[i]), str(real_states[i]), str(model_states[i])) for i in mism[:1]]))
-  for p in progs:
-    if p[0] == "merge" and prog_ops(p) >= 3:
-      s = run_prog(p)
-      if s is not None and len(s.get_locals()) == 2:
-        res.sample({"history": prog_str(p), "real_state": repr(s)})
-        break
-
-  # ---- leg 4: merge_into oracle on all pairs of reachable states (real objects only) -------------------
-  reps = [p for lvl in levels[:3] for p, _ in lvl]
-  if thorough:
-    r = common.rng(res.seed, "c18-pairs")
-    extra = [p for p, _ in levels[3]]
-    r.shuffle(extra)
-    reps_b = reps + extra[:1500]
-  else:
-    reps_b = reps
-  budget = 400.0 if thorough else 35.0
-  states = [run_prog(p) for p in reps_b]
-  n_pairs = 0
-  tp = time.time()
-  truncated = False
-  order = list(range(len(reps_b)))
-  for i in order:
-    if time.time() - tp > budget:
-      truncated = True
-      break
-    for j in range(len(reps)):
-      s1, s2 = states[i], states[j]
-      mg = s1.merge_into(s2)
-      n_pairs += 1
-      fail = merge_oracle(s1, s2, mg)
-      if fail is None and i < len(reps):
-        continue
-      if fail is None:
-        mg2 = s2.merge_into(s1)
-        n_pairs += 1
-        fail = merge_oracle(s2, s1, mg2)
-        if fail is None:
-          continue
-        p = ("merge", reps[j], reps_b[i])
-      else:
-        p = ("merge", reps_b[i], reps[j])
-      n_viol += 1
-      if n_viol <= 3:
-        small = shrink_prog(p, lambda q: top_oracle(q) is not None)
-        f2 = top_oracle(small)
-        res.violation(fingerprint(small, f2),
-                      "%s: under valuation %s local/field %s has %s, expected %s" % (prog_str(small), f2[0], f2[1], f2[2], f2[3]),
-                      {"kind": "history", "history": prog_json(small)})
-  res.count(None, n_pairs)
-  res.extra["merge_pairs_oracle"] = {"pairs": n_pairs, "states": len(reps_b), "truncated_by_time_budget": truncated}
-  res.obligation("oracle:merge_into/with_condition-truth-tables", n_viol == 0,
-                 "%d violating operations among %d history tops + %d state pairs" % (n_viol, n_oracle, n_pairs))
   res.extra["wall_legs_s"] = round(time.time() - t0, 1)
   if thorough:
     ok, out = common_coqchk("C18")
